@@ -10,7 +10,11 @@ repeated and alternating binds.  For every bind the truth table of the bound fun
 on ALL remaining inputs and judged by oracles that do not use `bind`:
   * CPython running the user's source with the parameters passed as keyword arguments;
   * the real front end on the source specialised *textually* by this harness (signature without
-    the parameters, `k = repr(v)` lines prepended in keyword order) - never through bind;
+    the parameters, `k = repr(v)` lines prepended in keyword order) - never through bind; when the
+    listed defect is not active (repaired bind) a value of the declared type T is written
+    `k: T = repr(v)`, and a second reference uses the library's typecasts (`Qint4(3)`) instead;
+  * keyword values that are not values of the declared type (an int needing more bits than Qint[n]):
+    bound as bare literals also by the repaired bind;
   * `ast.dump(u.fun_ast)` / `u.parameters` before and after every bind, results of repeated binds
     of the same values after any history, a fresh unbound object;
   * wrong arity / unknown names must raise, and must leave the object usable.
@@ -63,12 +67,31 @@ def ty_elems(t):
 
 
 def ty_model(t):
-    """declared type as the Lean model's Ty"""
+    """declared type as the Lean model's Ty (`typing.List[..]` is no type of the translator: `other`)"""
     if t == "bool":
         return "bool"
     if t[0] == "qint":
         return ["qint", t[1]]
+    if t[0] == "list":
+        return ["other", ty_src(t)]
     return ["tuple", [ty_model(x) for x in ty_elems(t)]]
+
+
+QINT_WIDTHS = (2, 3, 4, 5, 6, 7, 8, 12, 16)  # cross-checked against qlasskit.types.QINT_TYPES at the start of a run
+
+
+def is_value_of(t, v):
+    """the property's own reading of `a value of the declared type`: bool / Qint[n] (a builtin width, 0 <= v < 2**n) /
+    Tuple, Qlist of those with the right shape.  Only such a keyword value keeps its declared type in the repaired bind;
+    anything else (typing.List annotations, out-of-range ints, wrong shapes) is bound as a bare literal, as before."""
+    if t == "bool":
+        return isinstance(v, bool)
+    if t[0] == "qint":
+        return type(v) is int and t[1] in QINT_WIDTHS and 0 <= v < 2 ** t[1]
+    if t[0] in ("tuple", "qlist"):
+        el = ty_elems(t)
+        return isinstance(v, (tuple, list)) and len(el) > 0 and len(v) == len(el) and all(is_value_of(x, y) for x, y in zip(el, v))
+    return False
 
 
 def ty_bits(t):
@@ -259,11 +282,28 @@ def prog_src(p):
     return render(p["name"], p["args"], p["rty"], body_lines(p))
 
 
-def specialised_src(p, kv):
+def typecast_src(t, v):
+    """v written with the library's typecasts at the leaves: Qint4(3), (True, Qint2(1))"""
+    if t == "bool":
+        return repr(v)
+    if t[0] == "qint":
+        return f"Qint{t[1]}({v!r})"
+    xs = [typecast_src(x, y) for x, y in zip(ty_elems(t), v)]
+    return "(" + ", ".join(xs) + ("," if len(xs) == 1 else "") + ")"
+
+
+def specialised_src(p, kv, typed=False, casts=False):
     """the source specialised textually (independent of bind): parameters removed from the
-    signature, `k = repr(v)` prepended in keyword order"""
+    signature, `k = repr(v)` prepended in keyword order.  typed (the repaired bind): a value of the
+    declared type T is written `k: T = repr(v)`; casts: with typecasts at the leaves instead"""
     args = [a for a in p["args"] if not a["param"]]
-    pre = [f"{k} = {repr(v)}" for k, v in kv]
+    tys = {a["name"]: a["ty"] for a in p["args"] if a["param"]}
+    pre = []
+    for k, v in kv:
+        if typed and k in tys and is_value_of(tys[k], v):
+            pre.append(f"{k} = {typecast_src(tys[k], v)}" if casts else f"{k}: {ty_src(tys[k])} = {v!r}")
+        else:
+            pre.append(f"{k} = {v!r}")
     return render(p["name"], args, p["rty"], pre + body_lines(p))
 
 
@@ -646,6 +686,11 @@ def header_of(bound_ast, n_inj):
             "rest": [ast.dump(s) for s in fd.body[n_inj:]], "body_len": len(fd.body)}
 
 
+def ann_text(t):
+    """the declared type as `ast.unparse` prints the annotation"""
+    return ast.unparse(ast.parse(ty_src(t), mode="eval").body)
+
+
 def model_ty_src(j):
     if j is None:
         return None
@@ -697,11 +742,17 @@ class Checker:
         self.stats = dict(programs=0, unbound=0, rejected_unbound=0, binds=0, rejected_binds=0, rows=0,
                           rows_python_agree=0, rows_out_of_range=0, rows_python_raises=0,
                           rows_type_drop=0, rows_front_end_c01=0, error_cases=0, width_rows=0,
-                          width_programs=0, pysem_rows=0, fresh_checks=0, loop_bound_rejected=0)
+                          width_programs=0, pysem_rows=0, fresh_checks=0, loop_bound_rejected=0,
+                          typed_injections=0, bare_injections=0, out_of_domain_binds=0, typecast_refs=0)
         self.model_down = False
         # C01's listed defects of QintImp.gt / QintImp.sub reach C08 through the narrow injected constants: the
         # width-aware model takes them as quirks; whether they are still in the code is probed here
         self.wquirks = list(self.active) + front_end_quirks()
+        # the repaired bind keeps the declared type of a keyword value that is a value of that type
+        self.typed = QUIRK not in self.active
+        from qlasskit.types import QINT_TYPES
+        if tuple(sorted(t.BIT_SIZE for t in QINT_TYPES)) != QINT_WIDTHS:
+            raise RuntimeError("harness/c08.py: QINT_WIDTHS is out of date with qlasskit.types.QINT_TYPES")
 
     # ---- helpers
     def model(self, reqs):
@@ -784,16 +835,25 @@ class Checker:
         perms = list(itertools.permutations([a["name"] for a in params]))
         plan = []
         for j, k in enumerate(idxs):
-            plan.append((k, perms[j % len(perms)]))
+            plan.append((k, perms[j % len(perms)], values_of(k)))
+        # keyword values that are NOT values of the declared type (an int that needs more bits than Qint[n] has,
+        # inside a tuple too): bound as bare literals by the repaired bind as well; judged by the same oracles
+        for j, a in enumerate(params):
+            o = out_of_domain(a["ty"], values_of(idxs[-1])[a["name"]])
+            if o is not None:
+                vals = values_of(idxs[(j + 1) % len(idxs)])
+                vals[a["name"]] = o
+                plan.append((("ood", j), perms[j % len(perms)], vals))
+                st["out_of_domain_binds"] += 1
         # repeated and alternating binds of values already used, in other keyword orders
         if len(idxs) >= 2:
             a0, a1 = idxs[0], idxs[-1]
             mid = idxs[len(idxs) // 2]
             for j, k in enumerate([a0, a1, a0, mid, a1, a1, a0]):
-                plan.append((k, perms[(j + 1) % len(perms)]))
+                plan.append((k, perms[(j + 1) % len(perms)], values_of(k)))
         else:
-            plan.append((idxs[0], perms[-1]))
-            plan.append((idxs[0], perms[0]))
+            plan.append((idxs[0], perms[-1], values_of(idxs[0])))
+            plan.append((idxs[0], perms[0], values_of(idxs[0])))
         captured = {}
         orig_translate = u._do_translate
 
@@ -806,8 +866,7 @@ class Checker:
         first_table = {}
         reqs, req_meta = [], []
         try:
-            for step, (k, order) in enumerate(plan):
-                vals = values_of(k)
+            for step, (k, order, vals) in enumerate(plan):
                 kv = [(n, vals[n]) for n in order]
                 st["binds"] += 1
                 captured.clear()
@@ -827,13 +886,22 @@ class Checker:
                 if "hd" in captured:
                     hd = captured["hd"]
                     # the property's own reading of the header, independent of the model
+                    ptys = {a["name"]: a["ty"] for a in params}
                     want = {"args": [a["name"] for a in free],
-                            "injected": [[n, None if QUIRK in self.active else "typed", expect_value_json(v)] for n, v in kv]}
+                            "injected": [[n, (ann_text(ptys[n]) if self.typed and is_value_of(ptys[n], v) else None),
+                                          expect_value_json(v)] for n, v in kv]}
+                    for x in want["injected"]:
+                        st["typed_injections" if x[1] is not None else "bare_injections"] += 1
                     if hd["args"] != want["args"]:
                         res.violation(case, "the bound function's arguments are not the non-parameter arguments in order",
                                       code=hd["args"], expected=want["args"])
                     if [(x[0], x[2]) for x in hd["injected"]] != [(x[0], _tupled(x[2])) for x in want["injected"]]:
                         res.violation(case, "the injected constants are not the keyword values in keyword order",
+                                      code=hd["injected"], expected=want["injected"])
+                    elif self.typed and [x[1] for x in hd["injected"]] != [x[1] for x in want["injected"]]:
+                        # (with the listed defect active every injection is bare: that is the defect, attributed per row below)
+                        res.violation(case, "the injected constants do not carry the declared Parameter[T] types (a value of T must be "
+                                            "injected as `k: T = v`, any other value as a bare literal)",
                                       code=hd["injected"], expected=want["injected"])
                     if hd["rest"] != body0:
                         res.violation(case, "bind changed the body of the function")
@@ -863,8 +931,7 @@ class Checker:
             u._do_translate = orig_translate
         # --- a fresh object gives the same function as the much-bound one
         if plan:
-            k, order = plan[-1]
-            vals = values_of(k)
+            k, order, vals = plan[-1]
             try:
                 u2 = qlasskit.qlassf(src, to_compile=False)
                 t2, _ = table_of(u2.bind(**vals), free, p["rty"])
@@ -890,7 +957,7 @@ class Checker:
         front end too (e.g. a parameter as loop bound), never silently different"""
         qlasskit, _ = lib()
         try:
-            qlasskit.qlassf(specialised_src(p, kv), to_compile=False)
+            qlasskit.qlassf(specialised_src(p, kv, typed=self.typed), to_compile=False)
             ok = True
         except Exception:
             ok = False
@@ -909,10 +976,25 @@ class Checker:
         try:
             # (an argument annotated with a bare `Parameter` has no textual counterpart: bind drops it, python keeps it)
             if not p_has_removed(p):
-                rqf = qlasskit.qlassf(specialised_src(p, kv), to_compile=False)
+                rqf = qlasskit.qlassf(specialised_src(p, kv, typed=self.typed), to_compile=False)
                 ref, _ = table_of(rqf, free, p["rty"])
         except Exception as e:  # noqa
             res.violation(case, f"bind accepts what the front end rejects on the textually specialised source: {type(e).__name__}: {e}")
+        if self.typed and "body" in p and ref is not None:
+            # second reference that does not go through the typed assignment: the library's typecasts at the leaves
+            try:
+                cqf = qlasskit.qlassf(specialised_src(p, kv, typed=True, casts=True), to_compile=False)
+                cref, _ = table_of(cqf, free, p["rty"])
+            except Exception as e:  # noqa
+                cref = None
+                res.violation(case, f"the source specialised with typecast constants is rejected: {type(e).__name__}: {e}")
+            st["typecast_refs"] += 1
+            if cref is not None and [t[1] for t in cref] != [t[1] for t in tab]:
+                bad = next(i for i in range(nrows) if cref[i][1] != tab[i][1])
+                res.violation(self.case(p, kv, row_inputs(free, bad)),
+                              "the bound function differs from the front end's translation of the source specialised with typecast constants (Qint4(3), ...)",
+                              code=tab[bad][1], expected=cref[bad][1])
+                return
         if ref is not None and [t[1] for t in ref] != [t[1] for t in tab]:
             bad = next(i for i in range(nrows) if ref[i][1] != tab[i][1])
             res.violation(self.case(p, kv, row_inputs(free, bad)),
@@ -1017,9 +1099,13 @@ class Checker:
             if kind == "header":
                 b = rep.get("bind", {})
                 hd = data
-                model_hd = {"args": b.get("args"), "injected": [[x[0], model_ty_src(x[1]), x[2]] for x in b.get("injected", [])],
+                model_hd = {"args": b.get("args"), "injected": [[x[0], x[1], x[2]] for x in b.get("injected", [])],
                             "body_len": None if b.get("body_len") is None else b["body_len"] - len(prog_model(p).get("body", [])) + len(hd["rest"])}
-                code_hd = {"args": hd["args"], "injected": hd["injected"], "body_len": hd["body_len"]}
+                # the annotation the code injected, read as the model's Ty when it is the parameter's declared annotation
+                decl = {a["name"]: (ann_text(a["ty"]), ty_model(a["ty"])) for a in p["args"] if a["param"]}
+                code_inj = [[x[0], (decl[x[0]][1] if x[1] is not None and x[0] in decl and decl[x[0]][0] == x[1] else x[1]), x[2]]
+                            for x in hd["injected"]]
+                code_hd = {"args": hd["args"], "injected": code_inj, "body_len": hd["body_len"]}
                 if model_hd != code_hd:
                     res.disagree(case, "bound AST header: model != code", code=code_hd, model=model_hd)
                 if rep.get("detectors_agree") and b.get("still_unbound"):
@@ -1074,6 +1160,21 @@ class Checker:
         d = dict(case)
         d["inputs"] = row_inputs(free, i)
         return d
+
+
+def out_of_domain(t, v):
+    """v with one integer replaced by one that does not fit its declared Qint[n] (same python shape), or None"""
+    if t == "bool":
+        return None
+    if t[0] == "qint":
+        return 2 ** t[1] if t[1] <= 4 else None  # the first int that does not fit
+    if t[0] in ("tuple", "qlist"):
+        el = ty_elems(t)
+        for i in range(len(el) - 1, -1, -1):
+            o = out_of_domain(el[i], v[i])
+            if o is not None:
+                return tuple(list(v[:i]) + [o] + list(v[i + 1:]))
+    return None
 
 
 def _tupled(j):
